@@ -69,6 +69,8 @@ class Interp:
         self.call_ctx = []
         self.ret_trace = {}
         self.track_writes = False
+        self.refills = set(b.path for b in prog.bodies.values() if find_call(b, 'buffer_redux::BufReader::read_into_buf'))
+        self.eof_tests = {}
 
     # ------------------------------------------------------------------ roles
     def _reader_bodies(self):
@@ -503,6 +505,9 @@ class Interp:
         if k == 'assert':
             return [(t.j['target'], store, heap)]
         if k == 'switch':
+            if heap.get('filled') is False and self.is_eof_switch(body, blk):
+                self.violate_at('BUF-2', body, t.line, 'eof-verdict-on-unfilled-buffer',
+                                'an end-of-input verdict (buffer length < capacity) is taken although the buffer was altered in this call and not refilled', heap)
             v = self.eval_op(body, t.discr, store, heap)
             if v[0] == 'b':
                 iv = 1 if v[1] else 0
@@ -606,6 +611,26 @@ class Interp:
             else:
                 finish(a, heap)
             return outs
+        if path in ('std::result::Result::map', 'std::option::Option::map', 'std::result::Result::map_err', 'std::result::Result::ok',
+                    'std::result::Result::and', 'std::result::Result::is_ok', 'std::result::Result::is_err'):
+            a = self.deref_val(args[0], store, heap)
+            if a[0] == 'e' and a[1] in ('Result', 'Option'):
+                good = a[2] in ('Ok', 'Some')
+                if path == 'std::result::Result::map':
+                    finish(E('Result', 'Ok', UNIT if dest_ty.startswith('std::result::Result<(),') else TOP) if good else a, heap)
+                elif path == 'std::option::Option::map':
+                    finish(E('Option', 'Some', TOP) if good else a, heap)
+                elif path == 'std::result::Result::map_err':
+                    finish(a if good else E('Result', 'Err', ('err', '?')), heap)
+                elif path == 'std::result::Result::ok':
+                    finish(E('Option', 'Some', a[3][0] if a[3] else TOP) if good else E('Option', 'None'), heap)
+                elif path == 'std::result::Result::is_ok':
+                    finish(B(good), heap)
+                elif path == 'std::result::Result::is_err':
+                    finish(B(not good), heap)
+                else:
+                    finish(args[1] if good and len(args) > 1 else a, heap)
+                return outs
         if path == 'std::option::Option::ok_or':
             a = args[0]
             if a[0] == 'e' and a[1] == 'Option':
@@ -702,6 +727,17 @@ class Interp:
                 heap['bufclr'] = True
                 finish(UNIT, heap)
                 return outs
+        # ---------- buffer protocol ghost `filled` (BUF-2): altering the buffer un-fills it, a successful refill fills it
+        if args and isinstance(args[0], tuple) and args[0][:1] == ('rselfp',) and args[0][1][:1] == ('buf_reader',):
+            if c.is_('std::io::BufRead::consume', 'buffer_redux::BufReader::make_room', 'buffer_redux::BufReader::reserve', 'std::io::Seek::seek'):
+                heap['filled'] = False
+            if cb is not None and cb.path in self.refills:
+                for v in self.havoc(dest_ty):
+                    hp = heap.copy()
+                    if v[0] == 'e' and v[2] == 'Ok':
+                        hp['filled'] = True
+                    finish(v, hp)
+                return outs
         # ---------- crate-internal callee on &mut self / &self
         if cb is not None and args and args[0] == ('rself',) and cb.key.startswith(self.reader + '::'):
             if cb.path in self.locate:
@@ -765,6 +801,14 @@ class Interp:
         for body, parent, item in self.call_ctx:
             out.append('%s: bb%s' % (body.key, '>'.join(str(x) for x in self.path_of(parent, item))))
         return out
+
+    def is_eof_switch(self, body, blk):
+        key = (body.path, blk)
+        if key not in self.eof_tests:
+            import rules_err
+            rules_err._PROG[0] = self.prog
+            self.eof_tests[key] = rules_err.is_eof_test(body, blk, DefUse(body))
+        return self.eof_tests[key]
 
     def violate_at(self, rule, body, line, inst, detail, heap):
         # keyed by the public operation during which it happens (stable under inlining / extraction of helpers)
